@@ -78,6 +78,7 @@ class Evaluator:
         self.read_vars = []
         self.choices = {}
         self.stores = []
+        self.consts = {}
 
     def oracle(self, key):
         if key not in self.choices:
@@ -120,6 +121,10 @@ class Evaluator:
             p = e["path"]
             if p.endswith("Option::None"):
                 return ("none",)
+            if p in self.consts and isinstance(self.consts[p], bool):
+                return ("bool", self.consts[p])
+            if p in self.consts and isinstance(self.consts[p], int):
+                return ("int", self.consts[p])
             return ("enum", p)
         if k == "block":
             env = Env(env) if isinstance(env, Env) else Env(_as_env(env))
@@ -156,6 +161,20 @@ class Evaluator:
                     eq = l == r
                     return ("bool", eq if op == "Eq" else not eq)
                 raise Unrecognised(f"comparison of {l} and {r}")
+            if op in ("Lt", "Le", "Gt", "Ge"):
+                l, r = self.ev(e["l"], env), self.ev(e["r"], env)
+                if l[0] == "int" and r[0] == "int":
+                    return ("bool", {"Lt": l[1] < r[1], "Le": l[1] <= r[1], "Gt": l[1] > r[1], "Ge": l[1] >= r[1]}[op])
+                raise Unrecognised(f"ordering of {l} and {r}")
+            if op in ("BitAnd", "BitOr", "BitXor", "Add", "Sub", "Shl", "Shr") and "callee" not in e:
+                l, r = self.ev(e["l"], env), self.ev(e["r"], env)
+                if l[0] == "int" and r[0] == "int":
+                    f = {"BitAnd": lambda a, b: a & b, "BitOr": lambda a, b: a | b, "BitXor": lambda a, b: a ^ b, "Add": lambda a, b: a + b,
+                         "Sub": lambda a, b: a - b, "Shl": lambda a, b: a << b, "Shr": lambda a, b: a >> b}[op]
+                    return ("int", f(l[1], r[1]))
+                if l[0] == "bool" and r[0] == "bool" and op in ("BitAnd", "BitOr", "BitXor"):
+                    return ("bool", {"BitAnd": l[1] and r[1], "BitOr": l[1] or r[1], "BitXor": l[1] != r[1]}[op])
+                raise Unrecognised(f"arithmetic on {l} and {r}")
             raise Unrecognised(f"operator {op}")
         if k == "if":
             c = hir.simp(e["c"])
@@ -268,7 +287,13 @@ class Evaluator:
             return v[0] == "enum" and v[1] == path
         if k == "por":
             return any(self.bind(q, v, env) for q in p["pats"])
+        if k == "prange":
+            if v[0] == "int":
+                return v[1] in hir.pat_ints(p)
+            raise Unrecognised("range pattern against a non-integer")
         if k == "lit":
+            if p.get("t") == "bool":
+                return v == ("bool", p["v"])
             if p.get("t") == "int" and v[0] == "sym":
                 return self.oracle((v[1], ("int", p["v"])))
             if p.get("t") == "int":
